@@ -230,8 +230,11 @@ def tlc(module, cfg, wd, env=None, workers=None, timeout=1800, coverage=False, s
         r"Action property (\w+) is violated", out)
     res["prints"] = None
     if p.returncode not in (0, 12):
-        tail = "\n".join(out.splitlines()[-40:])
-        raise Machinery("TLC failed on %s (rc=%s):\n%s" % (module, p.returncode, tail))
+        lines = out.splitlines()
+        first = next((i for i, l in enumerate(lines) if l.startswith("Error:") or "***Parse Error***" in l or "Semantic errors" in l), None)
+        head = "\n".join(lines[first:first + 14]) if first is not None else ""
+        tail = "\n".join(lines[-12:])
+        raise Machinery("TLC failed on %s (rc=%s):\n%s\n...\n%s" % (module, p.returncode, head, tail))
     if coverage:
         res["coverage"] = parse_coverage(out)
     return res
